@@ -1,6 +1,7 @@
 package props
 
 import (
+	"astverif/demuxrules"
 	"astverif/ownership"
 	"fmt"
 	"go/token"
@@ -172,6 +173,8 @@ func c01(c *Ctx) {
 	c01StuffingReset(c)
 	// what the demuxer delivers stays what was written: nothing in it aliases a buffer that later reads reuse (rule S3 of C16)
 	r.Floor("S3", "borrowed/owned byte-slice source sites", ownership.BorrowTaint(c.P, r), 10)
+	// "exactly one PES per WriteData call": a PES that decodes is delivered whatever its stream id or header says (D1)
+	demuxrules.New(c.P, r).NoContentFilter()
 	muxstate.AutoPID(c.P, r, muxstate.RuleAutoPID)
 	// "one PAT/PMT pair per table emission describing the configured streams": every emission serialises the live stream list
 	// and PCR PID, every change raises the dirty flag, the context map follows the stream list (the 'current' rules of C17)
